@@ -72,6 +72,8 @@ type Writer struct {
 	// OffsetHook may replace the offset recorded in a cross-reference entry
 	// (fault injection: misdirected entries).
 	OffsetHook func(rev, num, off int) int
+	// PrevReal writes /Prev as a real number with the same value ("116.0").
+	PrevReal bool
 	// EntryHook may replace any field of a cross-reference entry as it is written (typ 0
 	// free, 1 plain, 2 in an object stream; a, b = next free, generation | offset,
 	// generation | container, index). The writer's own model is not affected.
@@ -333,10 +335,10 @@ func (w *Writer) Commit(rs RevSpec) []byte {
 			if w.PrevHook != nil {
 				pv = w.PrevHook(w.revs, xrefOff, pv)
 			}
-			d = append(d, KV{"Prev", pv})
+			d = append(d, KV{"Prev", w.prevObj(pv)})
 		} else if w.PrevHook != nil {
 			if pv := w.PrevHook(0, xrefOff, -1); pv >= 0 {
-				d = append(d, KV{"Prev", pv})
+				d = append(d, KV{"Prev", w.prevObj(pv)})
 			}
 		}
 		st := &Stream{Dict: d, Plain: data.Bytes()}
@@ -393,10 +395,10 @@ func (w *Writer) Commit(rs RevSpec) []byte {
 			if w.PrevHook != nil {
 				pv = w.PrevHook(w.revs, xrefOff, pv)
 			}
-			trailer = append(trailer, KV{"Prev", pv})
+			trailer = append(trailer, KV{"Prev", w.prevObj(pv)})
 		} else if w.PrevHook != nil {
 			if pv := w.PrevHook(0, xrefOff, -1); pv >= 0 {
-				trailer = append(trailer, KV{"Prev", pv})
+				trailer = append(trailer, KV{"Prev", w.prevObj(pv)})
 			}
 		}
 		if w.Hook != nil {
@@ -454,6 +456,13 @@ func bytesFor(v int) int {
 		n++
 	}
 	return n
+}
+
+func (w *Writer) prevObj(pv int) Obj {
+	if w.PrevReal {
+		return Real(float64(pv))
+	}
+	return pv
 }
 
 func putBE(b *bytes.Buffer, v, width int) {
